@@ -1,6 +1,11 @@
 package main
 
 import (
+	"time"
+
+	"github.com/prometheus/client_golang/prometheus"
+	"github.com/resonatehq/resonate/internal/app/subsystems/aio/store/sqlite"
+	"github.com/resonatehq/resonate/internal/metrics"
 	"database/sql"
 	"fmt"
 	"math/rand"
@@ -264,5 +269,101 @@ func runIsolation(r *runner, rng *rand.Rand) {
 	r.rep.HitN("isolation.distinct-committed-states-seen-by-reader", len(distinct))
 	if len(distinct) > 1 {
 		r.nontriv = true
+	}
+}
+
+// runCommitFault: a fault at COMMIT itself, after every command of the batch has succeeded. The database is a file; a
+// second connection holds a read transaction, so the store's COMMIT cannot get the exclusive lock and fails once the
+// (short) busy timeout is over. Every submission of the batch must complete with the error, and once the reader is
+// gone the tables must be what they were.
+func runCommitFault(r *runner, rng *rand.Rand) {
+	scratch := os.Getenv("VERIF_SCRATCH")
+	if scratch == "" {
+		scratch = "/var/tmp"
+	}
+	file := filepath.Join(scratch, fmt.Sprintf("cf-%d-%d.db", os.Getpid(), rng.Int63()))
+	defer os.Remove(file)
+	defer os.Remove(file + "-journal")
+	n := atomic.AddInt64(&dbn, 1)
+	_ = n
+	dsn := "file:" + file + "?_busy_timeout=150"
+	m := metrics.New(prometheus.NewRegistry())
+	st, err := sqlite.New(nil, m, &sqlite.Config{Size: 10, BatchSize: 10, Path: dsn, TxTimeout: 10 * time.Second})
+	if err != nil {
+		panic(err)
+	}
+	if err := st.Start(nil); err != nil {
+		panic(err)
+	}
+	defer st.Stop()
+	obs, err := sql.Open("sqlite3", "file:"+file+"?_busy_timeout=10000")
+	if err != nil {
+		panic(err)
+	}
+	defer obs.Close()
+	obs.SetMaxOpenConns(1)
+	b := &backend{name: "sqlite", process: st.Process, obs: obs, dsn: dsn, close: func() {}}
+	ref := NewRef()
+	g := &Gen{r: rand.New(rand.NewSource(rng.Int63())), ref: ref}
+	for i := 0; i < 3+g.r.Intn(5); i++ {
+		sb := genBatch(g)
+		r.cursors = g.cursors
+		if !r.execBatch(b, ref, sb, "setup") {
+			return
+		}
+	}
+	before, err := vh.ReadSnapshot(obs)
+	if err != nil {
+		r.violate("observer:sqlite", err.Error())
+		return
+	}
+	// the batch: generated transactions plus one write that certainly changes a row
+	txs := genBatch(g)
+	fresh := fmt.Sprintf("cf-new-%d", g.r.Intn(1000000))
+	cp := g.createPromise()
+	cp.Id = fresh
+	txs = append(txs, txr{cmds: []*t_aio.Command{{Kind: t_aio.CreatePromise, CreatePromise: cp}}})
+	// the reader
+	rd, err := sql.Open("sqlite3", "file:"+file+"?mode=ro&_busy_timeout=1000")
+	if err != nil {
+		panic(err)
+	}
+	defer rd.Close()
+	tx, err := rd.Begin()
+	if err != nil {
+		r.rep.Inconclusive++
+		return
+	}
+	var cnt int
+	_ = tx.QueryRow("SELECT count(*) FROM promises").Scan(&cnt)
+	cqes := b.process(mkSQEs(txs))
+	_ = tx.Rollback()
+	r.rep.FaultPoints++
+	r.rep.Commits++
+	nerr := 0
+	for _, cq := range cqes {
+		if cq.Error != nil {
+			nerr++
+		}
+	}
+	after, err := vh.ReadSnapshot(obs)
+	if err != nil {
+		r.violate("observer:sqlite", err.Error())
+		return
+	}
+	stored := after.P[fresh] != nil
+	switch {
+	case nerr == len(cqes) && before.Equal(after):
+		r.rep.Hit("commitfault.failed-and-nothing-stored")
+		r.nontriv = true
+	case nerr == 0 && stored:
+		// the commit went through (the reader's lock did not get in its way): not the situation under test
+		r.rep.Hit("commitfault.commit-succeeded")
+	case nerr == 0 && !stored:
+		r.violate("commitfault:failed-commit-reported-as-success", fmt.Sprintf("COMMIT failed (a reader held the file) and nothing of the batch is stored, but all %d submissions completed without an error", len(cqes)))
+	case nerr != len(cqes):
+		r.violate("commitfault:partial-failure", fmt.Sprintf("%d of %d submissions of one batch got the error", nerr, len(cqes)))
+	default:
+		r.violate("commitfault:failed-batch-left-changes", "the batch failed at COMMIT but the tables changed:\n"+diffLines(after.Dump(), before.Dump()))
 	}
 }
